@@ -20,6 +20,24 @@ _HEAPMOD = [("EventHeap", "_heap"), ("EventHeap", "_primary_event_count")]
 for _k in (1, 2, 3, 4, 5):
     loop(F_CTL, "SimulationControl.reset", _k, inv=[], modifies=_HEAPMOD)
 
+# _check_breakpoints: loop 1 evaluates every breakpoint once, loop 2 removes the one-shot ones that fired
+loop(F_CTL, "SimulationControl._check_breakpoints", 1, modifies=[], types={"to_remove": lambda: Seq(Str)}, inv=[
+    ("triggered-if-a-visited-breakpoint-fired", lambda L: _bp1_fired_implies_triggered(L)),
+    ("triggered-only-if-a-visited-breakpoint-fired", lambda L: _bp1_triggered_has_witness(L)),
+    ("listed-for-removal-only-fired-one-shots", lambda L: _bp1_listed_sound(L)),
+    ("every-fired-one-shot-is-listed", lambda L: _bp1_listed_complete(L)),
+    ("listed-once", lambda L: _bp_listed_distinct(L))])
+loop(F_CTL, "SimulationControl._check_breakpoints", 2, modifies=[("SimulationControl", "_breakpoints")], inv=[
+    ("already-removed", lambda L: _bp2_removed(L)),
+    ("still-to-remove-are-present", lambda L: _bp2_pending_present(L)),
+    ("others-kept-unchanged", lambda L: _bp2_kept(L)),
+    ("only-listed-removed", lambda L: _bp2_only_listed(L))])
+# hooks: every registered hook is called exactly once, in registration order, with the delivered event / new time
+loop(F_CTL, "SimulationControl._notify_event_processed", 1, modifies=[], inv=[
+    ("this-iteration-called-exactly-the-i-th-registered-hook-with-the-event", lambda L: _hook_iteration(L, "_event_hooks", "event"))])
+loop(F_CTL, "SimulationControl._notify_time_advance", 1, modifies=[], inv=[
+    ("this-iteration-called-exactly-the-i-th-registered-hook-with-the-time", lambda L: _hook_iteration(L, "_time_hooks", "new_time"))])
+
 _n0 = len(_spec_mod.TASKS)
 import specs.C01 as c01  # noqa: E402   (engine declarations + loop contracts; its tasks are dropped)
 del _spec_mod.TASKS[_n0:]
@@ -47,9 +65,10 @@ PROPERTY = {
 # =============================================================================== A. control state
 HOOKCB = Fn(None, "control_hook")
 cls(Breakpoint, fields={"one_shot": Bool})
+BPMAP = Map(Str, Ref(Breakpoint))
+HOOKMAP = Map(Str, HOOKCB, ordered=True)        # dicts: hooks run in registration (insertion) order
 cls(SimulationControl, fields={"_sim": Ref(Simulation), "_pause_requested": Bool, "_steps_remaining": Opt(Int),
-                               "_breakpoints": Map(Str, Ref(Breakpoint)), "_event_hooks": Map(Str, HOOKCB),
-                               "_time_hooks": Map(Str, HOOKCB)})
+                               "_breakpoints": BPMAP, "_event_hooks": HOOKMAP, "_time_hooks": HOOKMAP})
 CTRL_FIELDS = ["_pause_requested", "_steps_remaining", "_breakpoints", "_event_hooks", "_time_hooks"]
 
 
@@ -165,7 +184,45 @@ fn(Simulation, "_run_loop", label="control-attached", uses=CTRL_USES, setup=_sim
             ("time-never-decreases", lambda s: Not(spec_lt(s.self._current_time, s.old(s.self)._current_time)))])
 
 # =============================================================================== step / resume entry
-stub_of(Simulation, "run", returns=Any, modifies="world", ensures=[]).keeps = []
+# The re-entry into Simulation.run() is the one point where step()/resume() hand over to the engine; what
+# the statement says about them ("continues where it stopped", "step(n) delivers exactly n") is a statement
+# about the state AT THAT CALL relative to the state in which step()/resume() was entered.  The call-site
+# obligations below are evaluated there (E = view of the caller's entry state); after the call the world is
+# havoc'd (the run itself is covered by the loop contract of part B).
+import types as _pytypes  # noqa: E402
+from pyvc.heap import old_view as _old_view  # noqa: E402
+
+E = _pytypes.SimpleNamespace(old=lambda o: _old_view(o, _pctx_cur().pre_state))
+ENGINE_FIELDS = ["_event_heap", "_clock", "_current_time", "_events_processed", "_events_cancelled", "_end_time",
+                 "_start_time", "_is_running", "_last_event", "_control", "_tracing_enabled", "_event_router", "_trace"]
+
+
+def _pctx_cur():
+    from pyvc import ctx as _c
+    return _c.cur()
+
+
+def _engine_untouched_since_entry(sim):
+    """S = (pending events, clock, current time, counters, run flag) is what it was when the control call began"""
+    return (unchanged(E, sim, *ENGINE_FIELDS) & unchanged(E, sim._event_heap, "_heap", "_primary_event_count", "_current_time",
+                                                         "_tracing_enabled", "_event_counter")
+            & unchanged(E, sim._clock))
+
+
+def _reentry_budget(s):
+    ctl, how = G("ctl"), G("caller")
+    if how == "step":
+        return (ctl._steps_remaining is not None) and ctl._steps_remaining == G("n")
+    return ctl._steps_remaining is None
+
+
+_RUN = stub_of(Simulation, "run", returns=Any, modifies="world", ensures=[], requires=[
+    ("re-enters-the-run-of-its-own-simulation", lambda s: same(s.self, E.old(G("ctl"))._sim)),
+    ("engine-state-untouched-before-re-entry", lambda s: _engine_untouched_since_entry(s.self)),
+    ("re-enters-unpaused-with-the-pause-request-cleared", lambda s: Not(s.self._is_paused) & Not(G("ctl")._pause_requested)),
+    ("step-budget-is-exactly-what-was-asked", _reentry_budget),
+    ("observers-kept", lambda s: unchanged(E, G("ctl"), "_breakpoints", "_event_hooks", "_time_hooks", "_sim"))])
+_RUN.keeps = []
 
 
 def _step_post(s):
@@ -175,15 +232,51 @@ def _step_post(s):
     return len(called) == 1
 
 
-def _step_setup(s):
-    return []
+def _ctl_setup(how):
+    def setup(s):
+        g = _pctx_cur().ghost_args
+        g["ctl"], g["caller"] = s.self, how
+        if how == "step":
+            g["n"] = s.n
+        return [s.self._sim._event_heap, s.self._sim._clock]
+    return setup
 
 
-fn(SimulationControl, "step", args={"n": Int}, uses=[(Simulation, "run")],
+def _nothing_changed(s):
+    return unchanged(s, s.self) & unchanged(s, s.self._sim, *ENGINE_FIELDS, "_is_paused") & unchanged(s, s.self._sim._event_heap)
+
+
+fn(SimulationControl, "step", args={"n": Int}, uses=[(Simulation, "run")], setup=_ctl_setup("step"),
    ensures=[("runs-once-with-n-steps-armed", _step_post)],
-   raises={ValueError: [("only-nonpositive-n", lambda s: s.n < 1), ("nothing-changed", lambda s: unchanged(s, s.self))],
+   raises={ValueError: [("only-nonpositive-n", lambda s: s.n < 1), ("nothing-changed", _nothing_changed)],
            RuntimeError: [("only-when-not-running", lambda s: Not(s.old(s.self._sim)._is_running)),
-                          ("nothing-changed", lambda s: unchanged(s, s.self))]})
+                          ("nothing-changed", _nothing_changed)]})
+
+# resume(): from the statement "resume continues where it stopped without losing or repeating an event" -
+# it clears exactly the pause state (request flag, step budget, paused flag) and re-enters run() on the
+# untouched engine state (the call-site obligations of Simulation.run above); on a simulation that is not
+# paused it refuses and changes nothing.
+fn(SimulationControl, "resume", uses=[(Simulation, "run")], setup=_ctl_setup("resume"),
+   ensures=[("re-enters-run-exactly-once", _step_post),
+            ("only-from-a-paused-simulation", lambda s: s.old(s.old(s.self)._sim)._is_paused)],
+   raises={RuntimeError: [("only-when-not-paused", lambda s: Not(s.old(s.self._sim)._is_paused)),
+                          ("nothing-changed", _nothing_changed)]})
+
+
+# get_state(): an observation - it reads the engine and writes nothing; the snapshot shows the engine's values
+def _state_is_the_engines(s):
+    sim, r = s.self._sim, s.result
+    done = Not(sim._is_running) & (sim._events_processed > 0)
+    return (same_instant(r.current_time, sim._current_time) & (r.events_processed == sim._events_processed)
+            & (r.heap_size == slen(sim._event_heap._heap))
+            & (r.primary_events_remaining == sim._event_heap._primary_event_count)
+            & iff(r.is_paused, sim._is_paused) & iff(r.is_running, sim._is_running) & iff(r.is_complete, done))
+
+
+fn(SimulationControl, "get_state", setup=lambda s: [s.self._sim._event_heap, s.self._sim._clock],
+   ensures=[("snapshot-shows-the-engine-state", _state_is_the_engines),
+            ("pure", lambda s: unchanged(s, s.self) & unchanged(s, s.self._sim) & unchanged(s, s.self._sim._event_heap)
+             & unchanged(s, s.self._sim._clock))])
 
 # =============================================================================== C. reset()
 # From the statement: "reset() followed by run() repeats the original delivery sequence".  The
@@ -239,3 +332,327 @@ fn(SimulationControl, "reset", uses=[(Source, "start"), (FaultSchedule, "start")
             ("re-primes-pre-run-events-and-the-fault-schedule", _reset_reprimes),
             ("control-state-cleared", lambda s: Not(s.self._pause_requested) & (s.self._steps_remaining is None))],
    raises={RuntimeError: [("only-while-actively-running", lambda s: s.old(s.self._sim)._is_running & Not(s.old(s.self._sim)._is_paused))]})
+
+# =============================================================================== D. breakpoints
+# From the statement: "a breakpoint pauses right after the first delivery that satisfies it" and observing does
+# not change the run.  (i) should_break of every breakpoint class is a READ of the context (frame: nothing
+# written) whose answer is the documented predicate; (ii) _check_breakpoints answers True iff some registered
+# breakpoint's should_break did, removes exactly the one-shot breakpoints that fired (so they fire once) and
+# writes nothing but the control's own _breakpoints map - not the heap, the clock, a counter or the event.
+from happysimulator.core.control.breakpoints import (TimeBreakpoint, EventCountBreakpoint, ConditionBreakpoint,  # noqa: E402
+                                                     EventTypeBreakpoint, MetricBreakpoint)
+from happysimulator.core.control.state import BreakpointContext  # noqa: E402
+
+PRED = Fn(Bool, "breakpoint_predicate")
+cls(TimeBreakpoint, fields={"time": INSTANT, "one_shot": Bool})
+cls(EventCountBreakpoint, fields={"count": Int, "one_shot": Bool})
+cls(ConditionBreakpoint, fields={"fn": PRED, "description": Str, "one_shot": Bool})
+cls(EventTypeBreakpoint, fields={"event_type": Str, "one_shot": Bool})
+
+
+def _mk_context():
+    """a BreakpointContext as _check_breakpoints builds it: a real frozen instance over symbolic engine values"""
+    return BreakpointContext(current_time=fresh(INSTANT, "ctx_time"), events_processed=fresh(Int, "ctx_n"),
+                             last_event=fresh(Ref(Event), "ctx_event"), simulation=fresh(Ref(Simulation), "ctx_sim"))
+
+
+def _bp_pure(s):
+    """a breakpoint looks, it does not touch: neither itself, nor the event, nor the simulation it is shown"""
+    ctx = s.context
+    sim = ctx.simulation
+    return (unchanged(s, s.self) & unchanged(s, ctx.last_event) & unchanged(s, sim) & unchanged(s, sim._event_heap)
+            & unchanged(s, sim._clock))
+
+
+CTXARG = {"context": _mk_context}
+fn(TimeBreakpoint, "should_break", args=CTXARG, requires=[lambda s: wf_instant(s.self.time), lambda s: wf_instant(s.context.current_time)],
+   ensures=[("iff-time-reached", lambda s: iff(s.result, Not(spec_lt(s.context.current_time, s.self.time)))), ("pure", _bp_pure)])
+fn(EventCountBreakpoint, "should_break", args=CTXARG,
+   ensures=[("iff-count-reached", lambda s: iff(s.result, s.context.events_processed >= s.self.count)), ("pure", _bp_pure)])
+fn(EventTypeBreakpoint, "should_break", args=CTXARG,
+   ensures=[("iff-last-delivered-event-has-the-type", lambda s: iff(s.result, s.context.last_event.event_type == s.self.event_type)),
+            ("pure", _bp_pure)])
+
+
+def _cond_asked_once(s):
+    calls = G("fn_calls") if has_G("fn_calls") else []
+    if len(calls) != 1:
+        return False
+    term, a, k, r = calls[0]
+    return mk_bool(term == field_term(s.self, "fn")) & (len(a) == 1 and not k and a[0] is s.context) & iff(s.result, r)
+
+
+fn(ConditionBreakpoint, "should_break", args=CTXARG,
+   ensures=[("answers-what-the-predicate-answered-asked-once-with-the-context", _cond_asked_once), ("pure", _bp_pure)])
+
+# ---- _check_breakpoints -----------------------------------------------------------------------------------
+# should_break is user-extensible (Protocol): inside ONE check the context is fixed, so its answer is a function
+# SB of the breakpoint object; the frame (modifies nothing) is the purity assumption listed in PROPERTY.
+SB = z3.Function("should_break_answer", z3.IntSort(), z3.BoolSort())
+stub_of(Breakpoint, "should_break", returns=Bool, modifies=[], requires=[
+    ("context-shows-the-engine-state", lambda s: _context_is_engine_state(s))],
+    ensures=[lambda s: iff(s.result, mk_bool(SB(s.self._ref)))])
+
+
+def _context_is_engine_state(s):
+    sim, ctx = G("ctl")._sim, s.context
+    return (same(ctx.simulation, sim) & same_instant(ctx.current_time, sim._current_time)
+            & (ctx.events_processed == sim._events_processed) & same(ctx.last_event, sim._last_event))
+
+
+def _bp0(L):
+    """(dom, val) of the breakpoint map at function entry"""
+    m = field_term(L.old(L.self), "_breakpoints")
+    return BPMAP.dt.dom(m), BPMAP.dt.val(m), BPMAP.dt.size(m)
+
+
+def _bpnow(o):
+    m = field_term(o, "_breakpoints")
+    return BPMAP.dt.dom(m), BPMAP.dt.val(m), BPMAP.dt.size(m)
+
+
+def _one_shot(ref):
+    c = _pctx_cur()
+    return z3.Select(c.heap.array(("Breakpoint", "one_shot"), Bool), ref)
+
+
+def _tr(L):
+    tr = L.to_remove
+    return tr.term if isinstance(tr, SymList) else Seq(Str).unwrap(list(tr))
+
+
+def _zb(x):
+    return to_z3_bool(x)
+
+
+def _bp1_fired_implies_triggered(L):
+    dom0, val0, _ = _bp0(L)
+    vis = L.visited.arr
+    return forall(Str, lambda k: mk_bool(z3.Implies(z3.And(z3.Select(vis, k.t), SB(z3.Select(val0, k.t))), _zb(L.triggered))))
+
+
+def _bp1_triggered_has_witness(L):
+    dom0, val0, _ = _bp0(L)
+    vis = L.visited.arr
+    return implies(L.triggered, exists(Str, lambda k: mk_bool(z3.And(z3.Select(vis, k.t), SB(z3.Select(val0, k.t))))))
+
+
+def _in_range(j, tr, lo=0):
+    return z3.And(j >= lo, j < z3.Length(tr))
+
+
+def _bp1_listed_sound(L):
+    dom0, val0, _ = _bp0(L)
+    vis, tr = L.visited.arr, _tr(L)
+    return forall(Int, lambda j: mk_bool(z3.Implies(_in_range(j.t, tr), z3.And(
+        z3.Select(vis, tr[j.t]), SB(z3.Select(val0, tr[j.t])), _one_shot(z3.Select(val0, tr[j.t]))))))
+
+
+def _listed(tr, k, hi=None):
+    j = z3.Int("j_listed")
+    return z3.Exists([j], z3.And(j >= 0, j < (z3.Length(tr) if hi is None else hi), tr[j] == k))
+
+
+def _bp1_listed_complete(L):
+    dom0, val0, _ = _bp0(L)
+    vis, tr = L.visited.arr, _tr(L)
+    return forall(Str, lambda k: mk_bool(z3.Implies(z3.And(z3.Select(vis, k.t), SB(z3.Select(val0, k.t)), _one_shot(z3.Select(val0, k.t))),
+                                                    _listed(tr, k.t))))
+
+
+def _bp_listed_distinct(L):
+    tr = _tr(L)
+    return forall(Int, lambda a: forall(Int, lambda b: mk_bool(z3.Implies(
+        z3.And(a.t >= 0, a.t < b.t, b.t < z3.Length(tr)), tr[a.t] != tr[b.t]))))
+
+
+def _ival(i):
+    return i.t if hasattr(i, "t") else z3.IntVal(i)
+
+
+def _bp2_removed(L):
+    dom, _, _ = _bpnow(L.self)
+    tr, i = L.seq.term, _ival(L.i)
+    return forall(Int, lambda j: mk_bool(z3.Implies(z3.And(j.t >= 0, j.t < i), z3.Not(z3.Select(dom, tr[j.t])))))
+
+
+def _bp2_pending_present(L):
+    dom, _, _ = _bpnow(L.self)
+    tr, i = L.seq.term, _ival(L.i)
+    return forall(Int, lambda j: mk_bool(z3.Implies(z3.And(j.t >= i, j.t < z3.Length(tr)), z3.Select(dom, tr[j.t]))))
+
+
+def _bp2_kept(L):
+    dom, val, _ = _bpnow(L.self)
+    dom0, val0, _ = _bp0(L)
+    return forall(Str, lambda k: mk_bool(z3.Implies(z3.Select(dom, k.t), z3.And(z3.Select(dom0, k.t),
+                                                                                z3.Select(val, k.t) == z3.Select(val0, k.t)))))
+
+
+def _bp2_only_listed(L):
+    dom, _, _ = _bpnow(L.self)
+    dom0, _, _ = _bp0(L)
+    tr, i = L.seq.term, _ival(L.i)
+    return forall(Str, lambda k: mk_bool(z3.Implies(z3.And(z3.Select(dom0, k.t), z3.Not(z3.Select(dom, k.t))), _listed(tr, k.t, i))))
+
+
+def _cb_result(s):
+    """pauses iff some registered breakpoint says so"""
+    dom0, val0, _ = _bpnow(s.old(s.self))
+    fwd = forall(Str, lambda k: mk_bool(z3.Implies(z3.And(z3.Select(dom0, k.t), SB(z3.Select(val0, k.t))), _zb(s.result))))
+    bwd = implies(s.result, exists(Str, lambda k: mk_bool(z3.And(z3.Select(dom0, k.t), SB(z3.Select(val0, k.t))))))
+    return fwd & bwd
+
+
+def _cb_one_shots(s):
+    """exactly the one-shot breakpoints that fired are gone; every other breakpoint is still registered, unchanged"""
+    dom0, val0, _ = _bpnow(s.old(s.self))
+    dom, val, _ = _bpnow(s.self)
+
+    def body(k):
+        fired_once = z3.And(SB(z3.Select(val0, k.t)), _one_shot(z3.Select(val0, k.t)))
+        return mk_bool(z3.And(z3.Select(dom, k.t) == z3.And(z3.Select(dom0, k.t), z3.Not(fired_once)),
+                              z3.Implies(z3.Select(dom, k.t), z3.Select(val, k.t) == z3.Select(val0, k.t))))
+    return forall(Str, body)
+
+
+def _cb_frame(s):
+    sim = s.self._sim
+    return (unchanged(s, s.self, "_sim", "_pause_requested", "_steps_remaining", "_event_hooks", "_time_hooks")
+            & unchanged(s, sim) & unchanged(s, sim._event_heap) & unchanged(s, sim._clock)
+            & (True if s.old(sim)._last_event is None else unchanged(s, s.old(sim)._last_event)))
+
+
+def _cb_setup(s):
+    _pctx_cur().ghost_args["ctl"] = s.self
+    return [s.self._sim._event_heap, s.self._sim._clock]
+
+
+fn(SimulationControl, "_check_breakpoints", uses=[(Breakpoint, "should_break")], setup=_cb_setup,
+   ensures=[("pauses-iff-some-registered-breakpoint-says-so", _cb_result),
+            ("exactly-the-fired-one-shot-breakpoints-are-removed", _cb_one_shots),
+            ("writes-only-its-own-breakpoint-map", _cb_frame)])
+
+
+def _only_breakpoints_written(s):
+    sim = s.self._sim
+    return (unchanged(s, s.self, "_sim", "_pause_requested", "_steps_remaining", "_event_hooks", "_time_hooks")
+            & unchanged(s, sim) & unchanged(s, sim._event_heap) & unchanged(s, sim._clock))
+
+
+def _others_kept(map_field, MT, skip=None):
+    """every registration except `skip(s)` is what it was"""
+    def clause(s):
+        m0, m1 = field_term(s.old(s.self), map_field), field_term(s.self, map_field)
+        sk = None if skip is None else Str.unwrap(skip(s))
+        return forall(Str, lambda k: mk_bool(z3.Implies(z3.BoolVal(True) if sk is None else k.t != sk, z3.And(
+            z3.Select(MT.dt.dom(m1), k.t) == z3.Select(MT.dt.dom(m0), k.t),
+            z3.Implies(z3.Select(MT.dt.dom(m0), k.t), z3.Select(MT.dt.val(m1), k.t) == z3.Select(MT.dt.val(m0), k.t))))))
+    return clause
+
+
+fn(SimulationControl, "add_breakpoint", args={"bp": Ref(Breakpoint)}, setup=_cb_setup,
+   ensures=[("registered-under-the-returned-id", lambda s: contains(s.self._breakpoints, s.result)
+             & mk_bool(z3.Select(BPMAP.dt.val(field_term(s.self, "_breakpoints")), Str.unwrap(s.result)) == s.bp._ref)),
+            ("other-breakpoints-kept", _others_kept("_breakpoints", BPMAP, lambda s: s.result)),
+            ("writes-only-the-breakpoint-map", _only_breakpoints_written), ("breakpoint-untouched", lambda s: unchanged(s, s.bp))])
+fn(SimulationControl, "remove_breakpoint", args={"bp_id": Str}, setup=_cb_setup,
+   ensures=[("no-longer-registered", lambda s: Not(contains(s.self._breakpoints, s.bp_id))),
+            ("was-registered", lambda s: contains(s.old(s.self)._breakpoints, s.bp_id)),
+            ("other-breakpoints-kept", _others_kept("_breakpoints", BPMAP, lambda s: s.bp_id)),
+            ("writes-only-the-breakpoint-map", _only_breakpoints_written)],
+   raises={KeyError: [("only-for-an-unknown-id", lambda s: Not(contains(s.old(s.self)._breakpoints, s.bp_id))),
+                      ("nothing-changed", lambda s: unchanged(s, s.self) & unchanged(s, s.self._sim))]})
+fn(SimulationControl, "clear_breakpoints", setup=_cb_setup,
+   ensures=[("none-registered", lambda s: slen(s.self._breakpoints) == 0),
+            ("writes-only-the-breakpoint-map", _only_breakpoints_written)])
+
+# =============================================================================== E. hooks
+# From the statement: attaching event / time hooks does not change the run, and an observer sees the run:
+# every registered hook is called exactly once per delivered event (per time advance), in registration
+# order, with that event (that time); an unregistered hook is no longer in the map the notifier walks; and
+# registration writes the hook maps only.  Only _notify_event_processed spends the step budget: exactly one
+# per call (the loop calls it once per delivery - iteration shape, part B).
+
+
+def _hook_iteration(L, field, argname):
+    calls = G("fn_calls") if has_G("fn_calls") else []
+    if L.loop_phase != "step":
+        return len(calls) == 0
+    if len(calls) != 1:
+        return False
+    term, a, k, r = calls[0]
+    m = field_term(L.self, field)
+    key = L.seq.term[_ival(L.i) - 1]
+    arg = getattr(L, argname)
+    passed = len(a) == 1 and not k and (a[0] is arg or (isinstance(arg, ObjProxy) and same(a[0], arg)))
+    return mk_bool(term == z3.Select(HOOKMAP.dt.val(m), key)) & passed
+
+
+def _no_call_outside_the_loop(s):
+    return len(G("fn_calls") if has_G("fn_calls") else []) == 0
+
+
+def _notify_frame(s, *written):
+    sim = s.self._sim
+    keep = [f for f in ["_sim", "_pause_requested", "_steps_remaining", "_breakpoints", "_event_hooks", "_time_hooks"] if f not in written]
+    return unchanged(s, s.self, *keep) & unchanged(s, sim) & unchanged(s, sim._event_heap) & unchanged(s, sim._clock)
+
+
+def _budget_spent_once(s):
+    o, n = s.old(s.self)._steps_remaining, s.self._steps_remaining
+    if o is None:
+        return n is None
+    return (n is not None) and n == o - 1
+
+
+fn(SimulationControl, "_notify_event_processed", args={"event": Ref(Event)}, setup=_cb_setup,
+   ensures=[("step-budget-spent-exactly-once-per-delivery", _budget_spent_once),
+            ("hooks-called-only-from-the-walk-over-the-registered-hooks", _no_call_outside_the_loop),
+            ("writes-only-the-step-budget", lambda s: _notify_frame(s, "_steps_remaining") & unchanged(s, s.event))])
+fn(SimulationControl, "_notify_time_advance", args={"new_time": INSTANT}, setup=_cb_setup,
+   ensures=[("hooks-called-only-from-the-walk-over-the-registered-hooks", _no_call_outside_the_loop),
+            ("writes-nothing", lambda s: _notify_frame(s))])
+
+
+def _registered_last(field):
+    def clause(s):
+        m0, m1 = field_term(s.old(s.self), field), field_term(s.self, field)
+        kid = Str.unwrap(s.result)
+        dt = HOOKMAP.dt
+        return mk_bool(z3.And(z3.Select(dt.dom(m1), kid), z3.Select(dt.val(m1), kid) == HOOKCB.unwrap(s.callback),
+                              z3.Implies(z3.Not(z3.Select(dt.dom(m0), kid)), dt.keys(m1) == z3.Concat(dt.keys(m0), z3.Unit(kid)))))
+    return clause
+
+
+def _hook_reg_frame(field):
+    def clause(s):
+        sim = s.self._sim
+        keep = [f for f in ["_sim", "_pause_requested", "_steps_remaining", "_breakpoints", "_event_hooks", "_time_hooks"] if f != field]
+        return unchanged(s, s.self, *keep) & unchanged(s, sim) & unchanged(s, sim._event_heap) & unchanged(s, sim._clock)
+    return clause
+
+
+for _m, _f in (("on_event", "_event_hooks"), ("on_time_advance", "_time_hooks")):
+    fn(SimulationControl, _m, args={"callback": HOOKCB}, setup=_cb_setup,
+       ensures=[("registered-under-the-returned-id-after-all-earlier-hooks", _registered_last(_f)),
+                ("other-hooks-kept", _others_kept(_f, HOOKMAP, lambda s: s.result)),
+                ("writes-only-that-hook-map", _hook_reg_frame(_f)),
+                ("callback-not-called", _no_call_outside_the_loop)])
+
+
+def _removed_from_exactly_one(s):
+    e0, t0 = s.old(s.self)._event_hooks, s.old(s.self)._time_hooks
+    in_e = contains(e0, s.hook_id)
+    return (Not(contains(s.self._event_hooks, s.hook_id)) & implies(in_e, unchanged(s, s.self, "_time_hooks"))
+            & implies(Not(in_e), Not(contains(s.self._time_hooks, s.hook_id)) & unchanged(s, s.self, "_event_hooks")))
+
+
+fn(SimulationControl, "remove_hook", args={"hook_id": Str}, setup=_cb_setup,
+   ensures=[("the-hook-is-gone", _removed_from_exactly_one),
+            ("other-event-hooks-kept", _others_kept("_event_hooks", HOOKMAP, lambda s: s.hook_id)),
+            ("other-time-hooks-kept", _others_kept("_time_hooks", HOOKMAP, lambda s: s.hook_id)),
+            ("writes-only-the-hook-maps", lambda s: _notify_frame(s, "_event_hooks", "_time_hooks"))],
+   raises={KeyError: [("only-for-an-unknown-id", lambda s: Not(contains(s.old(s.self)._event_hooks, s.hook_id))
+                       & Not(contains(s.old(s.self)._time_hooks, s.hook_id))),
+                      ("nothing-changed", lambda s: unchanged(s, s.self) & unchanged(s, s.self._sim))]})
